@@ -322,6 +322,11 @@ where
 {
     #[cfg_attr(feature = "tracing", instrument(skip_all, level = "trace"))]
     fn drop(&mut self) {
+        // An error which a request stream has raised, and which this connection has not been
+        // polled for since, closes the connection with its own code
+        if self.inner.check_connection_error().is_err() {
+            return;
+        }
         self.inner.close_connection(
             Code::H3_NO_ERROR,
             "Connection was closed by the server".to_string(),
